@@ -20,6 +20,9 @@ pub fn build(tier: &str, seed: u64) -> World {
     let mut cases = vec![];
     for (ci, cfg) in w.cfgs.iter().enumerate() {
         let n = cfg.n();
+        if cfg.name.ends_with("-big") {
+            continue;
+        }
         if !thorough && n == 3 && cfg.name != "n3-E1-Oall" {
             continue;
         }
